@@ -32,6 +32,14 @@ KEYS = {
   'null':  {'null': (['C09', 'C10'], []), 'nullfull': (['C09'], []), 'back': (['C09', 'C10'], []), 'same': (['C09', 'C10'], [])},
   'fen':   {'res': (['C11'], []), 'fen': (['C11'], []), 'dump': (['C11', 'C09'], [])},
   'perft': {'perft': (['C01'], ['C01'])},
+  'eval':  {'raw': (['C15', 'C16'], []), 'mirror': (['C15'], []), 'mirrorfen': ([], ['C15'])},
+  'evalc': {'scores': (['C16'], []), 'raws': (['C16', 'C15'], [])},
+  'see':   {'see': (['C18'], []), 'seesign': (['C18'], ['C18'])},
+  'tt':    {'out': (['C14'], [])},
+  'order': {'res': (['C19'], []), 'scored': (['C19'], []), 'visit': (['C19'], [])},
+  'time':  {'budget': (['C08'], [])},
+  'go':    {'res': (['C07'], []), 'sp': (['C07'], []), 'msgs': (['C07'], [])},
+  'prep':  {'tokens': (['C07'], [])},
 }
 ASSERT = {
   'gen':  {'p.c17': ['C17'], 'p.shape': ['C10']},
@@ -39,9 +47,15 @@ ASSERT = {
   'play': {'p.hash': ['C09'], 'p.replayable': ['C03']},
   'null': {'p.nullhash': ['C09'], 'p.nullback': ['C09', 'C10']},
   'fen':  {'p.total': ['C11'], 'p.roundtrip': ['C11'], 'p.canon': ['C11']},
+  'eval': {'p.mirror': ['C15'], 'p.bound': ['C15']},
+  'evalc': {'p.transparent': ['C16']},
+  'tt':   {'p.sound': ['C14'], 'p.absent': ['C14'], 'p.aftersave': ['C14']},
+  'order': {'p.perm': ['C19'], 'p.sorted': ['C19']},
+  'time': {'p.ltclock': ['C08'], 'p.ltmovetime': ['C08'], 'p.indep': ['C08']},
+  'go':   {'p.total': ['C07']},
 }
 # operations whose answers are compared even outside the legal-position domain
-ALWAYS = {'fen', 'att', 'magic'}
+ALWAYS = {'fen', 'att', 'magic', 'tt', 'time', 'go', 'prep'}
 
 
 def sh(cmd, cwd=None, env=None, timeout=None, stdin=None):
